@@ -4,6 +4,7 @@ import (
 	"fmt"
 	"math"
 	"reflect"
+	"runtime"
 	"sort"
 	"strconv"
 	"strings"
@@ -320,6 +321,100 @@ func randomWM(r *hx.Run, rng *hx.Rng, sub uint64) {
 	if w.blocked {
 		r.Count(m.kind() + "-case-with-blocking")
 		r.Nontrivial(fmt.Sprintf("%s%d/%d:%s", m.kind(), n, v0, strings.Join(key, ",")))
+	}
+	r.Sample(r.CaseLines())
+}
+
+// arrivePushWait: goroutine t does Push x m immediately followed by WaitIsEmpty; after its pushes it lets goroutine
+// u (if u >= 0) call WaitSizeIsBelow(thr).  The consumers parked in PopOrWait by earlier arrivals race with both.
+// At quiescence nobody may still wait for a condition that holds.
+func (w *wmWorld) arrivePushWait(t, m, u, thr int) string {
+	st := w.m.(*stackMon)
+	vals := make([]int, m)
+	for i := range vals {
+		vals[i] = st.next
+		st.next++
+	}
+	w.actors[t].call(func() {
+		for _, x := range vals {
+			st.s.Push(x)
+		}
+		if u >= 0 {
+			w.actors[u].call(func() { st.s.WaitSizeIsBelow(thr) })
+		}
+		st.s.WaitIsEmpty()
+	})
+	w.pending[t] = &arrival{t: t, op: "below", arg: "1"}
+	if u >= 0 {
+		w.pending[u] = &arrival{t: u, op: "below", arg: strconv.Itoa(thr)}
+	}
+	if !settle(w.actors, w.m.waiters) {
+		w.dead = true
+		w.r.Fail("stall", "stack: no quiescence after Push followed by WaitIsEmpty; statuses="+statuses(w.actors),
+			sig("api", "Stack.WaitIsEmpty", "oracle", "stall"))
+	}
+	now := w.m.value()
+	for i, act := range w.actors {
+		p := w.pending[i]
+		if p == nil {
+			continue
+		}
+		pthr, _ := strconv.Atoi(p.arg)
+		switch act.state.Load() {
+		case stIdle:
+			w.pending[i] = nil
+		case stPanicked:
+			w.dead = true
+			w.r.Fail("unexpected-panic", fmt.Sprintf("stack %s panicked: %s", opLine(*p), act.panicMsg), sig("api", "stack."+p.op, "oracle", "unexpected-panic"))
+			w.pending[i] = nil
+		default:
+			w.blocked = true
+			if !mustWait(p.op, pthr, now) && !w.dead {
+				w.r.Fail("wait-lost-wakeup", fmt.Sprintf("stack %s still blocked at quiescence although the size is %d (consumers parked in PopOrWait took the pushed elements)", opLine(*p), now),
+					sig("api", "stack."+p.op, "oracle", "lost-wakeup", "schedule", "push-then-wait"))
+			}
+		}
+	}
+
+	return w.obs()
+}
+
+// pushWaitCase: k consumers parked in PopOrWait (each confirmed parked: registered on elementAdded), then the
+// push-then-wait arrival under the given GOMAXPROCS.
+func pushWaitCase(r *hx.Run, rng *hx.Rng, sub uint64, procs int) {
+	k := rng.Range(1, 3)
+	m := rng.Range(1, 2)
+	u, thr := -1, 0
+	n := k + 1
+	if k <= 2 && rng.Chance(2, 3) {
+		u, thr = k+1, rng.Range(1, 2)
+		n = k + 2
+	}
+	r.Case(sub)
+	w := &wmWorld{r: r, m: newStackMon(0), pending: make([]*arrival, n), res: make([][]byte, n), cb: make([][]byte, n)}
+	for i := 0; i < n; i++ {
+		w.actors = append(w.actors, newActor())
+	}
+	defer retire(w.actors)
+	r.Line(fmt.Sprintf("wm %d 0 stack", n), "ok")
+	for c := 0; c < k && !w.dead; c++ {
+		a := arrival{t: c, op: "poporwait"}
+		r.Line(fmt.Sprintf("w %d %s | %s", a.t, opLine(a), w.arrive(a)), "ok")
+	}
+	if !w.dead {
+		prev := runtime.GOMAXPROCS(procs)
+		obs := w.arrivePushWait(k, m, u, thr)
+		runtime.GOMAXPROCS(prev)
+		us, ts := "-", "0"
+		if u >= 0 {
+			us, ts = strconv.Itoa(u), strconv.Itoa(thr)
+		}
+		r.Line(fmt.Sprintf("wq %d %d %s %s | %s", k, m, us, ts, obs), "ok")
+	}
+	r.Count(fmt.Sprintf("stack-op:push-then-wait/procs=%d", procs))
+	r.Nontrivial(fmt.Sprintf("pushwait:%d/%d/%d/%d/%d", k, m, u, thr, procs))
+	if !w.dead {
+		w.releaseAll(r)
 	}
 	r.Sample(r.CaseLines())
 }
